@@ -28,34 +28,39 @@ def main():
             tier = args[i + 1]
         if a == '--also':
             also = args[i + 1].split(',')
-    res = {'property': pid, 'patch': patch}
-    rc, out = sh('git status --porcelain', cwd='/repo')
+    repo = '/repo'
+    for i, a in enumerate(args):
+        if a == '--repo':
+            repo = args[i + 1]           # triage in a scratch worktree (VKIT_REPO); the final confirmation uses /repo itself
+    envp = ('VKIT_REPO=%s ' % repo) if repo != '/repo' else ''
+    res = {'property': pid, 'patch': patch, 'repo': repo}
+    rc, out = sh('git status --porcelain', cwd=repo)
     if out.strip():
-        print(json.dumps({'error': '/repo not clean', 'status': out}))
+        print(json.dumps({'error': repo + ' not clean', 'status': out}))
         return 2
-    rc, out = sh('/venv/bin/python %s' % demo, cwd='/repo')
+    rc, out = sh('/venv/bin/python %s' % demo, cwd=repo)
     res['demo_passes_on_original'] = rc == 0
-    rc, out = sh('git apply %s' % patch, cwd='/repo')
+    rc, out = sh('git apply %s' % patch, cwd=repo)
     if rc != 0:
         print(json.dumps({'error': 'patch does not apply', 'out': out[-500:]}))
         return 2
     try:
-        rc, out = sh('/venv/bin/python -m pytest -q -p no:cacheprovider --timeout=900 2>&1 | tail -3', cwd='/repo')
+        rc, out = sh('/venv/bin/python -m pytest -q -p no:cacheprovider --timeout=900 2>&1 | tail -3', cwd=repo)
         res['suite'] = out.strip().splitlines()[-1] if out.strip() else ''
         res['suite_ok'] = '199 passed' in out and '1 failed' in out
-        rc, out = sh('/venv/bin/python %s' % demo, cwd='/repo')
+        rc, out = sh('/venv/bin/python %s' % demo, cwd=repo)
         res['demo_fails_with_patch'] = rc != 0
         res['checks'] = {}
         for c in [pid] + also:
             t0 = time.time()
-            rc, out = sh('./check %s --tier %s' % (c, tier), cwd=os.path.dirname(os.path.dirname(os.path.abspath(__file__))), timeout=7200)
+            rc, out = sh(envp + './check %s --tier %s' % (c, tier), cwd=os.path.dirname(os.path.dirname(os.path.abspath(__file__))), timeout=7200)
             viol = [l for l in out.splitlines() if l.startswith('VIOLATION')]
             res['checks'][c] = {'exit': rc, 'violations': len(viol), 'first': viol[:2], 'wall_s': round(time.time() - t0),
                                 'summary': [l for l in out.splitlines() if l.startswith(c + ' ')][:1],
                                 'detail': [l.strip()[:300] for l in out.splitlines() if 'detail:' in l][:3]}
     finally:
-        sh('git checkout -- .', cwd='/repo')
-    rc, out = sh('git status --porcelain', cwd='/repo')
+        sh('git checkout -- .', cwd=repo)
+    rc, out = sh('git status --porcelain', cwd=repo)
     res['repo_clean_after'] = not out.strip()
     print(json.dumps(res, indent=1))
     return 0
